@@ -38,9 +38,10 @@ pub struct InstructionContext<'a, H: ?Sized, WIRE: InterpreterTypes> {
 }
 pub mod contract {
     use super::*;
-    pub uninterp spec fn create_spec<WIRE: InterpreterTypes, H: Host + ?Sized>(c2: bool, i: Interpreter<WIRE>, h: &H) -> InstructionExecResult;
+    pub uninterp spec fn create_res<WIRE: InterpreterTypes, H: Host + ?Sized>(c2: bool, i: Interpreter<WIRE>, h: &H) -> InstructionExecResult;
     #[verifier::external_body]
     pub fn create<const IS_CREATE2: bool, WIRE: InterpreterTypes, H: Host + ?Sized>(context: InstructionContext<'_, H, WIRE>) -> (r: InstructionExecResult)
+        ensures r == create_res::<WIRE, H>(IS_CREATE2, *old(context.interpreter), old(context.host))
         { unimplemented!() }
 }
 
@@ -51,6 +52,15 @@ fn guarded_create<const IS_CREATE2: bool, WIRE: InterpreterTypes, H: Host + ?Siz
         old(context.interpreter).runtime_flag.static_spec() ==> r == Err::<(), _>(InstructionResult::StateChangeDuringStaticCall),
         !old(context.interpreter).runtime_flag.static_spec() && IS_CREATE2 && !old(context.interpreter).runtime_flag.spec_spec().enabled(SpecId::PETERSBURG)
             ==> r == Err::<(), _>(InstructionResult::NotActivated),
+        ({ let st = old(context.interpreter).runtime_flag.static_spec();
+           let pre = IS_CREATE2 && !old(context.interpreter).runtime_flag.spec_spec().enabled(SpecId::PETERSBURG);
+           let tgt = old(context.interpreter).input.target_spec();
+           let ld = old(context.host).delegated_spec(tgt);
+           !st && !pre ==> (match ld {
+               None => r == Err::<(), _>(InstructionResult::FatalExternalError),
+               Some(l) => if l.is_delegate_account_cold is Some { r == Err::<(), _>(InstructionResult::NotActivated) }
+                          else { exists|h2: &H| h2.host_eq(old(context.host)) && r == contract::create_res::<WIRE, H>(IS_CREATE2, *old(context.interpreter), h2) },
+           }) }),
 {
     if context.interpreter.runtime_flag.is_static() {
         return Err(InstructionResult::StateChangeDuringStaticCall)
